@@ -8,6 +8,11 @@ their public API in process.  Two streams:
 * float  - arbitrary floats: the model is not run (every line is `(noop)`), only the oracle judges, with
            a tolerance where rounding can enter.
 
+The model the driver runs is the cache layer of M-Geom (`cstep`, lean/DefconModel/GeomCache.lean): cached component
+bounds / control bounds and cached glyph area, evicted by edits of the base glyphs.  The ops `kCached` / `gAreaCached`
+compare the tables with `hasCachedRepresentation` of the real objects.  Histories flagged `watch` carry an observer
+that reads the geometry from INSIDE the notifications the mutations post (`_Watcher`); they are judged by the oracle only.
+
 The oracle (second half of this file) is written against the property text, with its own reading of
 a UFO point list (segments, implied points), exact polynomial integration for areas, derivative
 roots for curve extrema and a winding-number test; it shares no code or formula with the model.
@@ -40,6 +45,10 @@ ASSUMPTIONS = [
     "glyph.area / pointInside raising NotImplementedError on open contours is fontTools' documented 'undefined' "
     "and is accepted",
     "pointInside is cross-checked by the oracle only (exactly on polygons, away from the outline on curves)",
+    "reads made from inside notification callbacks are judged by the oracle only, and only for the notifying object "
+    "itself, a glyph's area inside its own notifications, and the unions (bounds, control bounds, margins) of the glyph the "
+    "running mutation is applied to; a glyph that is only built on the edited one may still hold stale component bounds "
+    "inside Glyph.ComponentsChanged (its components hear of the change one after the other): read, not judged",
 ]
 TRUSTED = [
     "fontTools 4.43 pens (PointToSegmentPen, BasePen, TransformPen, Bounds/ControlBounds/AreaPen, "
